@@ -129,7 +129,7 @@ Inductive cpoint :=
 Inductive fout := FOk | FFail (w : wrote) (repair_ok : bool) | FCrash (c : cpoint).
 Inductive op := Append (h id : N) | Prune (h : N) | Flush (o : fout) | Close (crash : bool) | Reopen.
 
-Inductive res := ROk | RRefused | RFail (landed : bool) | RCrash (landed : bool).
+Inductive res := ROk | RNoop (* success, nothing done: Close of a closed store *) | RRefused | RFail (landed : bool) | RCrash (landed : bool).
 
 (* DeleteWALEntries: the first pending prune record absorbs later prunes *)
 Fixpoint merge_prune (l : list rec) (h : N) : option (list rec) :=
@@ -240,7 +240,7 @@ Definition mstep (d : disk) (m : mem) (o : op) : disk * mem * res :=
   | Flush o => flush d m o
   | Close crash =>
       if mdead m then (d, m, RRefused)
-      else if mclosed m then (d, m, ROk)
+      else if mclosed m then (d, m, RNoop)
       else
         let '(d1, m1, r) := flush d m FOk in
         let shut (dd : disk) :=
@@ -249,7 +249,7 @@ Definition mstep (d : disk) (m : mem) (o : op) : disk * mem * res :=
           let d2 := match mcur m1 with
                     | Some n => with_files d1 (upd_file (dfiles d1) n set_torn)
                     | None => d1 end in
-          (d2, dead m1, RCrash (match r with ROk => true | _ => false end))
+          (d2, dead m1, match r with ROk => RCrash true | _ => RRefused end)
         else (d1, shut d1, r)
   | Reopen =>
       match open d with
@@ -274,7 +274,7 @@ Definition sstep (s : spec) (o : op) (r : res) : spec :=
   | Flush _ | Close _ =>
       match r with
       | ROk => mkSpec (sack s ++ spend s) (sack s ++ spend s) [] []
-      | RRefused => s
+      | RRefused | RNoop => s
       | RFail landed | RCrash landed =>
           mkSpec (sack s) (if landed then sack s ++ spend s else sdur s) (spend s) (spend s)
       end
